@@ -7,7 +7,7 @@ import types
 from harness import common, trees
 from harness.common import cps, uncps
 
-BRIDGE = ('Gemato.Bridge.FindTop', 'Gemato.Bridge.SrcFindTop', 'Gemato.Bridge.SrcText')
+BRIDGE = ('Gemato.Bridge.FindTop', 'Gemato.Bridge.SrcFindTop', 'Gemato.Bridge.SrcText', 'Gemato.Bridge.SrcVerify')
 PROPS = ['Gemato.Props.C15']
 NAMES = ['aa', 'a', 'aab', 'cc', 'a a', 'é']
 
@@ -150,7 +150,7 @@ def level_contents(rng, chain, lvl, depth):
         return files
     lines = []
     if below and rng.random() < 0.5:
-        k = rng.choice(['path', 'ancestor', 'sibling', 'lookalike', 'lookalike2', 'data-before-ignore', 'slash'])
+        k = rng.choice(['path', 'ancestor', 'sibling', 'lookalike', 'lookalike2', 'data-before-ignore', 'slash', 'descendant', 'descendant'])
         full = '/'.join(below)
         anc = '/'.join(below[:rng.randint(1, len(below))])
         if k == 'path':
@@ -163,6 +163,9 @@ def level_contents(rng, chain, lvl, depth):
             lines.append('IGNORE ' + trees.enc_path(full[:-1] if len(full) > 1 else full + 'x'))
         elif k == 'lookalike2':
             lines.append('IGNORE ' + trees.enc_path(anc + 'b'))
+        elif k == 'descendant':
+            # something strictly BELOW the starting path is ignored: the start itself is not
+            lines.append('IGNORE ' + trees.enc_path(full + '/' + rng.choice(['files', 'x', below[-1]])))
         elif k == 'slash':
             lines.append('IGNORE ' + trees.enc_path(anc + '/'))
         else:
@@ -186,7 +189,7 @@ def level_contents(rng, chain, lvl, depth):
 
 def run(ctx):
     ctx.rule = ('real directory chains up to depth 6 below a scratch directory (levels above it are read from the real system), a '
-                'Manifest plain / compressed / absent / both at every level, IGNORE entries naming the path, an ancestor, a sibling, '
+                'Manifest plain / compressed / absent / both at every level, IGNORE entries naming the path, an ancestor, a descendant, a sibling, '
                 'string-prefix look-alikes, a DATA entry before the IGNORE; every starting depth; allow_compressed on/off; a device '
                 'boundary at any level (st_dev overridden below a directory, for stat and fstat alike) with crossing allowed or not. '
                 'Oracle: the Lean specification `outermost` evaluated on the observed chain. non-trivial = every distinct scenario')
